@@ -131,3 +131,12 @@ let () =
 let () =
   register "d07.names_ok_shipped" (function [lines; tt; structs; protos; msgs] ->
       vbool (Parse16.names_ok_shipped (strs lines) (rows tt) (strs structs) (strs protos) (strs msgs)) | _ -> failwith "arity")
+
+(* C08 bridge: the "State Processing" region of the shipped Python template *)
+let () =
+  register "py.proc_ok" (function [] -> vbool PyRender.py_proc_ok | _ -> failwith "arity");
+  register "py.proc_lines" (function [] -> vstrs PyRender.py_proc_lines | _ -> failwith "arity");
+  register "py.proc_ref" (function [tt; structs; protos; msgs] ->
+      S (PyRender.py_proc_ref (rows tt) (strs structs) (strs protos) (strs msgs)) | _ -> failwith "arity");
+  register "py.proc_reads" (function [tt; structs; protos; msgs] ->
+      vbool (PyRender.py_proc_reads (rows tt) (strs structs) (strs protos) (strs msgs)) | _ -> failwith "arity")
